@@ -71,7 +71,7 @@ def unitvec(v):
     v = getvector(v)
     n = norm(v)
 
-    if n > 10 * _eps:  # same zero threshold as iszerovec
+    if n >= 10 * _eps:  # complement of the iszerovec test
         return v / n
     else:
         return None
@@ -101,7 +101,7 @@ def unitvec_norm(v):
     v = getvector(v)
     n = np.linalg.norm(v)
 
-    if n > 10 * _eps:  # same zero threshold as iszerovec
+    if n >= 10 * _eps:  # complement of the iszerovec test
         return (v / n, n)
     else:
         return None
